@@ -23,12 +23,15 @@ import (
 // C18 — wallet encryption protects secrets and decryption is robust.
 //
 // (a) wallets {deterministic, bip44 with passphrase, collection} × passwords × ciphers {sha256-xor,
-//     scrypt-chacha20poly1305 with N = 16 (harness registry entry, same code), the registered N = 2^15 "insecure" entry for
-//     one password per wallet kind, the default N = 2^20 for 2 (quick) / 6 (thorough) Lock/Unlock pairs}:
-//     locked serialisation contains no secret in raw / hex / HEX / base64 form; unlock(same) restores the complete
-//     state; unlock(other) is refused and changes nothing; failed Lock changes nothing.
+//
+//	scrypt-chacha20poly1305 with N = 16 (harness registry entry, same code), the registered N = 2^15 "insecure" entry for
+//	one password per wallet kind, the default N = 2^20 for 2 (quick) / 6 (thorough) Lock/Unlock pairs}:
+//	locked serialisation contains no secret in raw / hex / HEX / base64 form; unlock(same) restores the complete
+//	state; unlock(other) is refused and changes nothing; failed Lock changes nothing.
+//
 // (b) Decrypt of both ciphers over the mutation alphabet of c18_cases.go × passwords {right, wrong, empty}, every call in a
-//     sandboxed worker: the outcome must be the reference model's plaintext or an error; a panic / death / timeout is a violation.
+//
+//	sandboxed worker: the outcome must be the reference model's plaintext or an error; a panic / death / timeout is a violation.
 func init() { register("C18", "exploration", c18) }
 
 type c18WalletKind struct {
@@ -147,7 +150,7 @@ type c18aCase struct {
 	Other    string `json:"other_password,omitempty"`
 }
 
-var c18Passwords = []string{"p", "pw2", string(fixedBytes("verif C18 wallet password", 64)), "päss"}
+var c18Passwords = []string{"p", "pw2", string(fixedBytes("verif C18 wallet password", 64)), "päss", string(fixedBytes("verif C18 long wallet password", 80))}
 
 func wrongPasswords(pw string) []string {
 	set := map[string]bool{}
@@ -166,6 +169,10 @@ func wrongPasswords(pw string) []string {
 	add(pw[:len(pw)-1])
 	add(strings.ToUpper(pw))
 	add(pw + pw)
+	if len(pw) > 64 {
+		// HMAC replaces a key longer than its block (64 bytes for SHA-256) by its hash
+		add(string(sha256sum([]byte(pw))))
+	}
 	return out
 }
 
@@ -295,6 +302,8 @@ func c18Secrets(r *engine.Run, k c18WalletKind, ct crypto.CryptoType, pw string,
 				if strings.TrimRight(bad, "\x00") == strings.TrimRight(pw, "\x00") {
 					// HMAC zero-pads keys shorter than its block: PBKDF2/scrypt cannot tell "pw" from "pw\x00"
 					sig += ":differs-only-in-trailing-NUL-bytes(HMAC-key-padding)"
+				} else if len(pw) > 64 && bad == string(sha256sum([]byte(pw))) {
+					sig += ":is-sha256-of-the-longer-than-64-bytes-password(HMAC-key-hashing)"
 				}
 				r.Failf(sig, c, "%s/%s locked with %q: Unlock(%q) succeeded (wallet %v)", k.Name, ct, pw, bad, uw != nil)
 				oc.Add("unlock-other-password-ACCEPTED")
@@ -353,9 +362,9 @@ func c18Secrets(r *engine.Run, k c18WalletKind, ct crypto.CryptoType, pw string,
 }
 
 func c18(r *engine.Run) {
-	oc := engine.NewCounter()   // part (a) outcome classes
-	dc := engine.NewCounter()   // part (b) outcome classes
-	fam := engine.NewCounter()  // part (b) cases per family
+	oc := engine.NewCounter()  // part (a) outcome classes
+	dc := engine.NewCounter()  // part (b) outcome classes
+	fam := engine.NewCounter() // part (b) cases per family
 	distinctA := engine.NewSet()
 	kinds := c18Kinds()
 	var wg sync.WaitGroup
@@ -477,16 +486,31 @@ func c18(r *engine.Run) {
 	tick("b_model", t1)
 	t2 := time.Now()
 	// the real Decrypt, sandboxed
-	const batch = 400
-	nb := (len(cases) + batch - 1) / batch
+	// batches of ~400 cheap cases; a case that makes scrypt run with N = 2^16 (64 MiB, ~0.5 s) weighs 40,
+	// so that a batch never comes near its deadline because of legitimate work
+	weight := func(c *dcase) int {
+		if c.Cipher == cScrypt && (strings.Contains(c.Desc, "n=65536") || c.Class == "n=65536") {
+			return 40
+		}
+		return 1
+	}
+	type span struct{ lo, hi int }
+	var spans []span
+	for lo := 0; lo < len(cases); {
+		hi, wsum := lo, 0
+		for hi < len(cases) && (wsum < 400 || hi == lo) {
+			wsum += weight(&cases[hi])
+			hi++
+		}
+		spans = append(spans, span{lo, hi})
+		lo = hi
+	}
+	nb := len(spans)
 	results := make([]decRes, len(cases))
 	vmem := 2 << 20 // KiB = 2 GiB
-	deadline := time.Duration(r.Pick(180, 600)) * time.Second
+	deadline := time.Duration(r.Pick(300, 900)) * time.Second
 	engine.ParForN(12, nb, func(bi int) {
-		lo, hi := bi*batch, (bi+1)*batch
-		if hi > len(cases) {
-			hi = len(cases)
-		}
+		lo, hi := spans[bi].lo, spans[bi].hi
 		reqs := make([]decReq, 0, hi-lo)
 		for i := lo; i < hi; i++ {
 			reqs = append(reqs, decReq{ID: i, Cipher: cases[i].Cipher, Text: cases[i].Text, Pw: cases[i].Pw})
@@ -569,16 +593,16 @@ func c18(r *engine.Run) {
 		"distinct_nontrivial": distinctA.Len() + nontrivialB.Len(),
 		"rule": "part (a): distinct (operation, wallet kind, cipher, password[, other password]) tuples; part (b): distinct (cipher, ciphertext bytes, password) triples other than a valid ciphertext with its own password " +
 			"(i.e. every truncated / re-prefixed / re-parameterised / re-sealed / malformed input and every wrong or empty password)",
-		"samples":                     samples,
-		"exhaustive":                  true,
-		"outcome_histogram":           dc.Map(),
-		"outcome_histogram_wallets":   oc.Map(),
-		"decrypt_cases":               len(cases),
-		"decrypt_distinct_inputs":     distinctB.Len(),
-		"decrypt_cases_per_family":    fam.Map(),
-		"lock_unlock_default_scrypt":  len(defPairs),
-		"worker_batches":              nb,
-		"phase_seconds":               phase,
+		"samples":                    samples,
+		"exhaustive":                 true,
+		"outcome_histogram":          dc.Map(),
+		"outcome_histogram_wallets":  oc.Map(),
+		"decrypt_cases":              len(cases),
+		"decrypt_distinct_inputs":    distinctB.Len(),
+		"decrypt_cases_per_family":   fam.Map(),
+		"lock_unlock_default_scrypt": len(defPairs),
+		"worker_batches":             nb,
+		"phase_seconds":              phase,
 		"alphabet": map[string]interface{}{"wallet_kinds": len(kinds), "passwords": len(c18Passwords), "ciphers": 4, "scrypt_base_ciphertexts": len(sb), "xor_base_ciphertexts": len(xb),
 			"scrypt_meta_product": product, "scrypt_meta_single": single, "tiny_base64_strings": len(tiny)},
 	})
